@@ -187,8 +187,8 @@ type vConn struct {
 
 	mu      sync.Mutex
 	got     []bpv7.Bundle
-	marker  chan []byte
-	pong    chan string
+	pongIn  chan string // connector: from the reader's pong handler to the collector goroutine
+	pong    chan string // to the harness
 	rawDone chan struct{}
 }
 
@@ -335,49 +335,40 @@ func (e *vEnv) barrier() {
 	}
 }
 
-// syncConns makes sure every frame written by the server so far has been read by the clients.
+// syncConns makes sure every frame written by the server so far has been read by the clients: a
+// WebSocket ping is answered by the server's read loop with a pong, which the client reads after
+// all frames written before. (Control frames do not pass the MuxAgent: the synchronisation does not
+// depend on the code under test.)
 func (e *vEnv) syncConns() {
 	e.markSeq++
-	seq := []byte(strconv.Itoa(e.markSeq))
+	seq := strconv.Itoa(e.markSeq)
 	var waitFor []*vConn
-	sent := map[string]bool{}
 	for _, id := range e.order {
 		a := e.agents[id]
 		if a.kind != 'W' {
 			continue
 		}
 		for _, c := range a.conns {
+			conn := c.raw
 			if c.wac != nil {
-				if !sent[c.eid] {
-					sent[c.eid] = true
-					e.mux.MessageReceiver() <- SyscallResponseMessage{Request: "verif-sync", Response: seq, Recipient: vEid(c.eid)}
-				}
-				waitFor = append(waitFor, c)
-			} else if c.raw != nil {
-				_ = c.raw.WriteControl(websocket.PingMessage, seq, time.Now().Add(time.Second))
-				waitFor = append(waitFor, c)
+				conn = c.wac.conn
 			}
+			if err := conn.WriteControl(websocket.PingMessage, []byte(seq), time.Now().Add(2*time.Second)); err != nil {
+				e.fail("web socket ping: %v", err)
+				continue
+			}
+			waitFor = append(waitFor, c)
 		}
 	}
 	for _, c := range waitFor {
-		deadline := time.After(5 * time.Second)
+		deadline := time.After(3 * time.Second)
 		for done := false; !done; {
-			if c.wac != nil {
-				select {
-				case m := <-c.marker:
-					done = bytes.Equal(m, seq)
-				case <-deadline:
-					e.fail("web socket client did not see the sync marker")
-					done = true
-				}
-			} else {
-				select {
-				case m := <-c.pong:
-					done = m == string(seq)
-				case <-deadline:
-					e.fail("raw web socket connection did not answer the ping")
-					done = true
-				}
+			select {
+			case m := <-c.pong:
+				done = m == seq
+			case <-deadline:
+				e.fail("web socket connection did not answer the ping")
+				done = true
 			}
 		}
 	}
@@ -386,7 +377,7 @@ func (e *vEnv) syncConns() {
 func (e *vEnv) wsConnect(a *vAgent, c int, eid string) {
 	url := "ws" + strings.TrimPrefix(a.srv.URL, "http") + "/ws"
 	before := e.wsChildren(a)
-	vc := &vConn{eid: eid, marker: make(chan []byte, 4), pong: make(chan string, 4), rawDone: make(chan struct{})}
+	vc := &vConn{eid: eid, pongIn: make(chan string), pong: make(chan string, 4), rawDone: make(chan struct{})}
 	if eid != "-" {
 		wac, err := NewWebSocketAgentConnector(url, "dtn://"+eid)
 		if err != nil {
@@ -394,6 +385,8 @@ func (e *vEnv) wsConnect(a *vAgent, c int, eid string) {
 			return
 		}
 		vc.wac = wac
+		// the pong travels through the collector goroutine, so it is seen after every bundle read before
+		wac.conn.SetPongHandler(func(d string) error { vc.pongIn <- d; return nil })
 		go func() {
 			bc, sc := wac.msgInBundleChan, wac.msgInSyscallChan
 			for bc != nil || sc != nil {
@@ -406,12 +399,12 @@ func (e *vEnv) wsConnect(a *vAgent, c int, eid string) {
 					vc.mu.Lock()
 					vc.got = append(vc.got, b)
 					vc.mu.Unlock()
-				case m, ok := <-sc:
+				case _, ok := <-sc:
 					if !ok {
 						sc = nil
-						continue
 					}
-					vc.marker <- m
+				case d := <-vc.pongIn:
+					vc.pong <- d
 				}
 			}
 		}()
@@ -723,6 +716,18 @@ func (e *vEnv) close() {
 	}
 }
 
+var vHarnessFailures int
+
+// vFailed: harness failures (time-outs waiting for the code under test) are reported once or twice,
+// then the run is cut short instead of waiting for every remaining history to time out.
+func vFailed(t *testing.T, format string, a ...interface{}) {
+	vHarnessFailures++
+	t.Errorf(format, a...)
+	if vHarnessFailures >= 3 {
+		t.Fatalf("verif: %d harness failures, giving up", vHarnessFailures)
+	}
+}
+
 func vRunHist(t *testing.T, ops []string) string {
 	e := newVEnv(t)
 	defer e.close()
@@ -730,7 +735,7 @@ func vRunHist(t *testing.T, ops []string) string {
 	for _, op := range ops {
 		parts = append(parts, e.do(op))
 		if e.failed != "" {
-			t.Errorf("harness failure in %q: %s", strings.Join(ops, " "), e.failed)
+			vFailed(t, "harness failure in %q: %s", strings.Join(ops, " "), e.failed)
 			return "# harness-failure " + e.failed + " in " + strings.Join(ops, " ")
 		}
 	}
@@ -1294,11 +1299,17 @@ func TestVerifC07(t *testing.T) {
 	seed := vSeed()
 	r := &vRng{s: seed*0x1234567 + 99}
 	thorough := vThorough()
+	t0 := time.Now()
+	lap := func(what string) {
+		emit(fmt.Sprintf("# timing %s %.1fs", what, time.Since(t0).Seconds()))
+		t0 = time.Now()
+	}
 
 	// 1. every registration order of 0..3 recipients on one endpoint
 	n := 0
 	vExhaustive(3, func(ops []string) { emit(vRunHist(t, ops)); n++ })
 	emit(fmt.Sprintf("# exhaustive registration orders: %d histories", n))
+	lap("exhaustive")
 
 	// 2. many recipients per endpoint
 	for k := 4; k <= 6; k++ {
@@ -1314,6 +1325,8 @@ func TestVerifC07(t *testing.T) {
 		emit(vRunHist(t, vRandomHist(r, 10+r.intn(25))))
 	}
 
+	lap("random-histories")
+
 	// 4. deliver during fetch, both forced orders and the two sequential ones, mailbox of 0..3 bundles
 	for pre := 0; pre <= 3; pre++ {
 		emit(vRace(t, "fd", pre))
@@ -1322,8 +1335,11 @@ func TestVerifC07(t *testing.T) {
 		emit(vRace(t, "seqdf", pre))
 	}
 
+	lap("race")
+
 	// 5. content
 	vContent(t, emit)
+	lap("content")
 
 	// 6. stress
 	rounds := 2
@@ -1335,4 +1351,5 @@ func TestVerifC07(t *testing.T) {
 			emit(l)
 		}
 	}
+	lap("stress")
 }
